@@ -40,21 +40,25 @@ type point struct {
 
 // Exec is one controlled execution.
 type Exec struct {
-	threads   []*Thread
-	cur       *Thread
-	prefix    []int
-	points    []point
-	steps     int
-	Horizon   int
-	aborted   bool
-	Deadlock  bool
-	Livelock  bool
-	Diverged  string
-	toDriver  chan struct{}
-	pending   *Thread
-	Log       []string // observations recorded by the harness (determinism + outcome)
-	Data      any      // harness state
-	Now       time.Time
+	threads  []*Thread
+	cur      *Thread
+	prefix   []int
+	points   []point
+	steps    int
+	Horizon  int
+	aborted  bool
+	Deadlock bool
+	Livelock bool
+	Diverged string
+	toDriver chan struct{}
+	pending  *Thread
+	Log      []string // observations recorded by the harness (determinism + outcome)
+	Data     any      // harness state
+	Now      time.Time
+	// NowTick: when non-zero every read of the virtual clock (TickNow, used by vtime.Now) advances it by this much,
+	// so that successive clock reads are strictly ordered like a real clock's and timestamps written by the code
+	// under test reveal the order in which they were TAKEN. It does not fire timers (only Advance does).
+	NowTick   time.Duration
 	timers    []*Timer
 	PanicText string
 	schedule  []string // human readable schedule: thread names at choice points
@@ -353,6 +357,13 @@ func (tm *Timer) Stop() bool {
 	tm.stopped = true
 	tm.t.done = true
 	return true
+}
+
+// TickNow reads the virtual clock (and advances it by NowTick, see there).
+func (x *Exec) TickNow() time.Time {
+	t := x.Now
+	x.Now = x.Now.Add(x.NowTick)
+	return t
 }
 
 // Advance moves virtual time forward and fires due timers (they become enabled
